@@ -342,7 +342,7 @@ func execC07(c *hlib.Ctx, tok []string) string {
 
 func genC07(c *hlib.Ctx) {
 	r := c.R
-	nStores, nReq := c.N(16, 500), c.N(30, 60)
+	nStores, nReq := c.N(16, 400), c.N(30, 60)
 	for i := 0; i < nStores; i++ {
 		g := &storeGen{r: r, storedPool: []int{1, 2, 4, 5, 7, 9, 11}, extPool: []int{5, 6, 9, 11}}
 		kind := "tsdb"
